@@ -51,6 +51,36 @@ impl UnlockableFile for File {
     }
 }
 
+/**
+Check that `path` still names the file that was just locked.
+
+A lock on a file that has been unlinked (e.g. by a concurrent `destroy_database`) protects nothing
+because the next caller creates and locks a new file at the same path.
+*/
+#[cfg(target_family = "unix")]
+fn ensure_lock_file_still_linked(file: &File, path: &Path) -> io::Result<()> {
+    use std::os::unix::fs::MetadataExt;
+
+    let locked_file = file.metadata()?;
+    match fs::metadata(path) {
+        Ok(named_file)
+            if named_file.ino() == locked_file.ino() && named_file.dev() == locked_file.dev() =>
+        {
+            Ok(())
+        }
+        _ => Err(io::Error::new(
+            io::ErrorKind::WouldBlock,
+            "The lock file was replaced while it was being locked.",
+        )),
+    }
+}
+
+/// Check that `path` still names the file that was just locked.
+#[cfg(not(target_family = "unix"))]
+fn ensure_lock_file_still_linked(_file: &File, _path: &Path) -> io::Result<()> {
+    Ok(())
+}
+
 /// File system implementation that delegates I/O to the operating system.
 pub struct OsFileSystem {}
 
@@ -149,6 +179,7 @@ impl FileSystem for OsFileSystem {
             .truncate(true)
             .open(path)?;
         file.try_lock_exclusive()?;
+        ensure_lock_file_still_linked(&file, path)?;
 
         Ok(FileLock::new(Box::new(file)))
     }
@@ -311,6 +342,7 @@ impl FileSystem for TmpFileSystem {
             .truncate(true)
             .open(self.get_rooted_path(path))?;
         file.try_lock_exclusive()?;
+        ensure_lock_file_still_linked(&file, &self.get_rooted_path(path))?;
 
         Ok(FileLock::new(Box::new(file)))
     }
